@@ -41,7 +41,8 @@ def lmean {α : Type} (f : α → F) (l : List α) : F := sumBy f l / ((l.length
 
 /-- `np.var(·, ddof=1)` of a per-element quantity -/
 def svar {α : Type} (f : α → F) (l : List α) : F :=
-  sumBy (fun x => (f x - lmean f l) * (f x - lmean f l)) l / (((l.length : Nat) : F) - ((1 : Nat) : F))
+  let m := lmean f l      -- bound once (the driver evaluates this definition: keep it O(n))
+  sumBy (fun x => (f x - m) * (f x - m)) l / (((l.length : Nat) : F) - ((1 : Nat) : F))
 
 end
 
@@ -58,7 +59,8 @@ def aipwEst (l : List (Row F)) (Q : Row F → Bool → F) (g1 g0 : Row F → F) 
 
 /-- … and its variance `np.var((y1 - y0) - estimate, ddof=1) / n` (the reported SE is its square root) -/
 def aipwVar (l : List (Row F)) (Q : Row F → Bool → F) (g1 g0 : Row F → F) : F :=
-  svar (fun r => aipwDiff Q g1 g0 r - aipwEst l Q g1 g0) l / ((l.length : Nat) : F)
+  let e := aipwEst l Q g1 g0
+  svar (fun r => aipwDiff Q g1 g0 r - e) l / ((l.length : Nat) : F)
 
 end
 end ZV.Std
